@@ -24,6 +24,7 @@ type poolEvent struct {
 type poolTracer struct {
 	mu       sync.Mutex
 	ids      map[uintptr]int
+	keep     []interface{} // strong references: an address must not be reused for another object within a case
 	events   []poolEvent
 	scribble bool
 	enabled  bool
@@ -37,6 +38,7 @@ func (t *poolTracer) reset(scribble bool) {
 	t.mu.Lock()
 	defer t.mu.Unlock()
 	t.ids = map[uintptr]int{}
+	t.keep = nil
 	t.events = nil
 	t.scribble = scribble
 	t.enabled = true
@@ -57,6 +59,7 @@ func (t *poolTracer) id(obj interface{}) int {
 	}
 	id := len(t.ids) + 1
 	t.ids[p] = id
+	t.keep = append(t.keep, obj)
 	return id
 }
 
